@@ -55,12 +55,12 @@ func ZZ_C19_Pairs() {
 		a(func() { s.Wait() })
 		a(func() { s.Set(3, 300, 1, 0) })
 	case 7: // SaveCache || Set / Delete
-		a(func() { _ = s.Persist(1, vfGhostStream()) })
+		a(func() { err := s.Persist(1, vfGhostStream()); vfAssert("save-succeeds", err == nil) })
 		a(func() { s.Set(1, 103, 2, 0); s.Delete(2); s.Set(3, 300, 1, 0) })
 	case 8: // SaveCache || tick (expiry)
 		vfClockSet(origin + 1<<31)
 		vfFireTickers()
-		a(func() { _ = s.Persist(1, vfGhostStream()) })
+		a(func() { err := s.Persist(1, vfGhostStream()); vfAssert("save-succeeds", err == nil) })
 		a(func() { s.Get(2) })
 	case 9: // loading Get || Delete / Set on the same key
 		ls := NewLoadingStore(s)
